@@ -11,7 +11,7 @@ def release_lib(be, cc, tr=None):
     extra = [] if tr is None else ["-DKEY_SHARES=%d" % tr[0], "-DDATA_SHARES=%d" % tr[1], "-DMAX_SHARES=%d" % tr[2]]
     d = build.cmake_release(OPTS[be] + ["-DMINIMAL=ON"] + extra, tag="c13", cc=cc, targets=("ascon_static",))
     lib = os.path.join(d, "src", "libascon_static.a")
-    return dict(lib=lib, inc=["-I" + os.path.join(build.REPO, "src"), "-I" + os.path.join(build.REPO, "src", "ascon"), "-I" + d], dir=d, cflags=[],
+    return dict(lib=lib, inc=["-I" + os.path.join(build.REPO, "src"), "-I" + os.path.join(build.REPO, "src", "ascon"), "-I" + d], dir=d, cflags=["-DHAVE_CONFIG_H"],
                 cc=cc, cxx={"gcc": "g++", "clang": "clang++"}[cc], sanflags=[], desc="cmake Release %s %s%s" % (be, cc, "" if tr is None else " k%dd%dm%d" % tr))
 
 
@@ -46,7 +46,7 @@ def run(ctx):
     ]
     cov = dict(states=ctx.stats.get("states", 0), transitions=ctx.stats.get("transitions", 0),
                traces_validated_against_impl=ctx.stats.get("traces_validated", 0), object_types=ctx.stats.get("object_types", 0),
-               rule="23 C object types and 16 C++ classes x every operation history of length <= %d over a 4-operation alphabet per type x terminal {free | destructor | clear()} x 2 secret assignments, "
+               rule="27 C object types (incl. the masked permutation states x2-x4 and the TRNG state) and 16 C++ classes x every operation history of length <= %d over a 4-operation alphabet per type x terminal {free | destructor | clear()} x 2 secret assignments, "
                     "on the CMake Release library of each configuration in %s" % (maxh, [c[0] + "/" + c[1] + ("" if c[2] is None else "/k%dd%dm%d" % c[2]) for c in cfgs]),
                exhaustive=True)
     return LEVEL, cov
